@@ -20,6 +20,7 @@
 struct VSync;
 static void lock_monitor(int why, struct VSync *m);
 #define V_YIELD(why, obj) lock_monitor(why, obj)
+#define V_SYNC_POOL (MAXSEG + 2)
 #include "common/threads_model.h"
 #include "Source/Lib/Encoder/Codec/EbEncDecSegments.c"
 #include "Source/Lib/Encoder/Codec/EbEncDecProcess.c"
@@ -93,7 +94,7 @@ void harness(void) {
 #else
     uint32_t sc = (uint32_t)vin_range(1, MAXSEG), sr = (uint32_t)vin_range(1, MAXSEG);
 #endif
-    S = (EncDecSegments *)calloc(1, sizeof(*S)); V_ASSUME(S != NULL);
+    static EncDecSegments S_obj; S = &S_obj;   /* typed static object (a calloc-ed one is a byte array: every field access becomes a byte extract) */
     EbErrorType e = enc_dec_segments_ctor(S, MAXSEG, MAXSEG); V_ASSUME(e == EB_ErrorNone);
     enc_dec_segments_init(S, sc, sr, PW, PH);
     /* geometry post-conditions */
@@ -145,7 +146,7 @@ void harness(void) {
 #else
     uint32_t sc = (uint32_t)vin_range(1, MAXSEG), sr = (uint32_t)vin_range(1, MAXSEG);
 #endif
-    S = (EncDecSegments *)calloc(1, sizeof(*S)); V_ASSUME(S != NULL);
+    static EncDecSegments S_obj; S = &S_obj;   /* typed static object (a calloc-ed one is a byte array: every field access becomes a byte extract) */
     EbErrorType e = enc_dec_segments_ctor(S, MAXSEG, MAXSEG); V_ASSUME(e == EB_ErrorNone);
     enc_dec_segments_init(S, sc, sr, PW, PH);
     unsigned total = 0;
